@@ -133,6 +133,8 @@ func runC04(c *Ctx) {
 		c.prevCheckpointStrict()
 	})
 
+	c.rule("C04.V1", "a lighter branch from any peer cannot displace the honest chain: "+knownWorkDoc, func() { c.knownWorkLoop() })
+
 	c.rule("C04.O3", "the peer can locate the fork point: every getheaders request that starts a sync or answers a block announcement (all PushGetHeadersMsg sites of the block manager except the in-batch continuation in handleHeadersMsg, whose single hash the peer itself just supplied) carries a locator that includes the stored chain's LatestBlockLocator, so a peer whose best chain no longer contains our tip still finds the common ancestor", func() {
 		push := c.method(pPeer, "Peer", "PushGetHeadersMsg")
 		loc := c.method("headerfs", "BlockHeaderStore", "LatestBlockLocator")
